@@ -232,7 +232,13 @@ fn main() {
     let thorough = run.tier == Tier::Thorough;
     // registry completeness: every `pub fn parse_*` of the sources has an entry
     let scanned = scan_pub_parse_fns();
-    let missing: Vec<String> = scanned.iter().filter(|n| !ents.iter().any(|e| e.name == n.as_str() || e.name.contains(n.as_str()))).cloned().collect();
+    // parse_record / parse_record_nocopy are TlsRecordsParser methods: covered by the history exploration below
+    let missing: Vec<String> = scanned
+        .iter()
+        .filter(|n| !["parse_record", "parse_record_nocopy"].contains(&n.as_str()))
+        .filter(|n| !ents.iter().any(|e| e.name == n.as_str() || e.name.contains(n.as_str())))
+        .cloned()
+        .collect();
 
     // ---- work items: (entry, kind, shard)
     #[derive(Clone)]
@@ -325,6 +331,9 @@ fn main() {
                         };
                         sink.case(fnv(ei as u64, b), class != "Incomplete" || b.len() > 4);
                         sink.count(e.name, class);
+                        if sink.samples.len() < 3 && b.len() > 6 && b.len() < 48 && (class == "Ok") == (sink.samples.len() % 2 == 0) {
+                            sink.samples.push(json!({"func": e.name, "input": hexs(b), "outcome": class, "peak_heap_bytes": peak}));
+                        }
                         if let Err(p) = r {
                             sink.violation(
                                 format!("panic {} {}", e.name, hexs(b)),
